@@ -10,7 +10,6 @@ import (
 	"github.com/makiuchi-d/gozxing/datamatrix"
 	dmdec "github.com/makiuchi-d/gozxing/datamatrix/decoder"
 	dmenc "github.com/makiuchi-d/gozxing/datamatrix/encoder"
-	"github.com/makiuchi-d/gozxing/verifhook"
 
 	"verifharness/fw"
 	"verifharness/ref/dmref"
@@ -122,58 +121,6 @@ func dmLowerBound12(b []byte) int {
 		}
 	}
 	return n
-}
-
-type dmStepAbort struct{ verifhook.DMStepLimitExceeded }
-
-// dmGuard runs f with the dispatch-step limit armed; returns whether the limit was exceeded.
-func dmGuard(limit int, f func()) (exceeded bool, steps int, trace string) {
-	var modes []byte
-	verifhook.DMTrace = func(pos, mode, cw int) {
-		if len(modes) < 400 {
-			modes = append(modes, "ACTXEB"[mode%6])
-		}
-	}
-	verifhook.SetDMStepLimit(limit)
-	defer func() {
-		steps = verifhook.DMSteps()
-		verifhook.SetDMStepLimit(0)
-		verifhook.DMTrace = nil
-		trace = string(modes)
-		if p := recover(); p != nil {
-			if _, ok := p.(verifhook.DMStepLimitExceeded); ok {
-				exceeded = true
-				return
-			}
-			panic(p)
-		}
-	}()
-	f()
-	return
-}
-
-// collapse a mode trace "AAACCCAB" to "ACAB"
-func collapseTrace(t string) string {
-	var sb strings.Builder
-	for i := 0; i < len(t); i++ {
-		if i == 0 || t[i] != t[i-1] {
-			sb.WriteByte(t[i])
-		}
-	}
-	s := sb.String()
-	if len(s) > 12 {
-		s = s[len(s)-12:]
-	}
-	return s
-}
-
-// traceTail: the last two modes of the collapsed trace (signature material)
-func traceTail(t string) string {
-	s := collapseTrace(t)
-	if len(s) > 2 {
-		s = s[len(s)-2:]
-	}
-	return s
 }
 
 func isCapacityError(err error) bool {
@@ -340,35 +287,6 @@ func clipB(b []byte) []byte {
 		return b[:48]
 	}
 	return b
-}
-
-// the seven character classes of the design
-var dmClasses = []string{
-	"0123456789",
-	"ABCDEFGHIJKLMNOPQRSTUVWXYZ 0123456789",
-	"abcdefghijklmnopqrstuvwxyz 0123456789",
-	"*>\rABCXYZ 019",
-	"!\"#$%&'()+,-./:;<=?@[\\]^",
-	"\x00\x01\x05\x09\x0a\x1b\x1d\x1e\x1f\x7f_`{|}~",
-	"",
-}
-
-func dmRandomText(rng *fw.Rand, maxLen int) string {
-	n := 1 + rng.Intn(maxLen)
-	var rs []rune
-	for len(rs) < n {
-		cl := rng.Intn(7)
-		run := 1 + rng.Intn(7)
-		for j := 0; j < run && len(rs) < n; j++ {
-			if cl == 6 {
-				rs = append(rs, rune(0x80+rng.Intn(0x80)))
-			} else {
-				a := dmClasses[cl]
-				rs = append(rs, rune(a[rng.Intn(len(a))]))
-			}
-		}
-	}
-	return string(rs)
 }
 
 func dmRandomHints(rng *fw.Rand) (shape int, min, max *[2]int) {
